@@ -219,6 +219,30 @@ def judge_matrix_expression_attributes():
     return txt, None, None
 
 
+def judge_symbolic_matrix_literal():
+    """an attribute written as a nested array LITERAL with symbolic entries on a square 2-D variable, expanded to scalars: element
+    [i,j] reports entry j of the i-th inner literal"""
+    import casadi as ca
+    import pymoca.parser
+    from pymoca.backends.casadi.generator import generate
+    from pymoca.backends.casadi._options import _merge_default_options
+    txt = "model Q2 parameter Real p = 2; Real Y[2,2](max = {{1 * p, 2 * p}, {3 * p, 4}}); equation Y = fill(1.0, 2, 2); end Q2;"
+    o = _merge_default_options({"expand_vectors": True})
+    m = generate(pymoca.parser.parse(txt), "Q2", o)
+    m.simplify(o)
+    psyms = [q.symbol for q in m.parameters]
+    W = np.array([[2.0, 4.0], [6.0, 4.0]])
+    blk = np.array(m.variable_metadata_function(ca.veccat(2.0))[1])
+    for r, v in enumerate(m.alg_states):
+        nm = v.symbol.name()
+        idx = tuple(int(t) - 1 for t in nm[nm.index("[") + 1:-1].split(","))
+        val = v.max
+        got = float(ca.Function("f", psyms, [ca.MX(val)])(2.0)) if not isinstance(val, (int, float)) else float(val)
+        if got != W[idx] or blk[r, ATTR_COL["max"]] != W[idx]:
+            return txt, "expand_vectors: %s.max evaluates to %r, metadata row %r" % (nm, got, blk[r, ATTR_COL["max"]]), "%r" % W[idx]
+    return txt, None, None
+
+
 def main():
     payload = json.load(sys.stdin)
     tier, seed = payload.get("tier", "quick"), int(payload.get("seed", 0) or 0)
@@ -256,6 +280,13 @@ def main():
             txt, obs, exp = "computed-array model", "%s: %s" % (type(e).__name__, str(e)[:160]), "a model"
         if obs:
             failures.append({"class": "metadata", "input": txt, "observed": obs, "expected": exp})
+    n += 1
+    try:
+        txt, obs, exp = judge_symbolic_matrix_literal()
+    except BaseException as e:  # noqa
+        txt, obs, exp = "symbolic matrix literal model", "%s: %s" % (type(e).__name__, str(e)[:160]), "a model"
+    if obs:
+        failures.append({"class": "metadata", "input": txt, "observed": obs, "expected": exp})
     n += 1
     try:
         txt, obs, exp = judge_matrix_expression_attributes()
